@@ -18,12 +18,18 @@ type rnode struct {
 	Deco  int     `json:"deco,omitempty"` // 1: symbol set, 2: case-folded, 3: both + lead-once/no-padding (presentation only)
 	Kids  []rnode `json:"kids,omitempty"`
 	Ex    *rnode  `json:"ex,omitempty"` // C: stack expression (nil = leaf expression)
+	// Frozen: S/A: the stack is read-only (set once its content is in place). C: the Condition will refuse a
+	// new expression - 1 read-only, 2 no-nesting switched on afterwards, 3 an error left on record
+	Frozen int `json:"frozen,omitempty"`
 }
 
 func (n rnode) String() string {
 	p := ""
 	if n.Paren {
 		p = "()"
+	}
+	if n.Frozen > 0 {
+		p += fmt.Sprintf("!%d", n.Frozen)
 	}
 	switch n.T {
 	case "leaf":
@@ -137,6 +143,9 @@ func (n rnode) build(path string, depth, mmode int, beh ...int) any {
 				s.Swap(0, len(vals)+3)
 			}
 		}
+		if n.Frozen > 0 {
+			s.SetReadOnly(true)
+		}
 		if n.T == "A" {
 			return StackAlias(s)
 		}
@@ -152,6 +161,14 @@ func (n rnode) build(path string, depth, mmode int, beh ...int) any {
 		}
 		if n.Paren {
 			c.SetParen(true)
+		}
+		switch n.Frozen {
+		case 1:
+			c.SetReadOnly(true)
+		case 2:
+			c.SetNoNesting(true)
+		case 3:
+			c.SetErr(errCat)
 		}
 		return c
 	}
@@ -683,6 +700,29 @@ func c20Trees(c *Ctx) []rnode {
 				}
 				trees = append(trees, rnode{T: "S", K: "AND", Kids: []rnode{cur}}, rnode{T: "S", K: "OR", Kids: []rnode{{T: "leaf"}, cur}})
 			}
+		}
+	}
+	// instances that refuse what Reveal may want to do to them: a Condition that will not take a new
+	// expression (read-only, no-nesting switched on after the fact, an error on record) holding a Stack or an
+	// alias, in the first slot next to an envelope, elsewhere, and inside an envelope; read-only nested stacks
+	// (envelopes and multi-element ones), with every mutex placement
+	for frozen := 1; frozen <= 3; frozen++ {
+		for _, exT := range []string{"S", "A"} {
+			for _, exKids := range [][]rnode{{{T: "leaf"}, {T: "leaf"}}, {{T: "S", K: "AND", Kids: []rnode{{T: "leaf"}}}}, {{T: "C"}}} {
+				ex := rnode{T: exT, K: "OR", Kids: exKids}
+				fc := rnode{T: "C", Ex: &ex, Frozen: frozen}
+				env := rnode{T: "S", K: "AND", Kids: []rnode{{T: "C"}}}
+				trees = append(trees, rnode{T: "S", K: "AND", Kids: []rnode{fc, env}}, rnode{T: "S", K: "OR", Kids: []rnode{env, fc}}, rnode{T: "S", K: "AND", Kids: []rnode{fc}},
+					rnode{T: "S", K: "LIST", Kids: []rnode{{T: "S", K: "AND", Kids: []rnode{fc}}, {T: "leaf"}}}, rnode{T: "S", K: "AND", Kids: []rnode{fc, {T: "leaf"}, env, fc}})
+			}
+		}
+	}
+	for _, in := range [][]rnode{{{T: "leaf"}, {T: "leaf"}}, {{T: "leaf"}}, {{T: "C"}}, {{T: "S", K: "OR", Kids: []rnode{{T: "leaf"}}}}, {{T: "S", K: "OR", Kids: []rnode{{T: "leaf"}}}, {T: "leaf"}}} {
+		for _, h := range headers {
+			ro := h
+			ro.Kids, ro.Frozen = in, 1
+			trees = append(trees, rnode{T: "S", K: "AND", Kids: []rnode{ro}}, rnode{T: "S", K: "OR", Kids: []rnode{{T: "leaf"}, ro, {T: "S", K: "AND", Kids: []rnode{{T: "C"}}}}},
+				rnode{T: "S", K: "AND", Kids: []rnode{{T: "S", K: "OR", Kids: []rnode{ro}}, {T: "C", Ex: &ro}}})
 		}
 	}
 	// a Condition holding a two-level Stack, next to (before / after / two away from) an envelope that
